@@ -70,6 +70,9 @@ class Gen:
         if head_mem:
             place = base + lane
             ins = [Dep('in', MEM(place), guard=k.eq(lo), f=TT(A, 'X', *args(k - s)))]
+            if r.random() < 0.5:
+                # overlapping guards, first match wins: a guarded task input followed by an UNGUARDED collection input
+                ins = [Dep('in', TT(A, 'X', *args(k - s)), guard=k.ne(lo)), Dep('in', MEM(place))]
             outs = [Dep('out', TT(A, 'X', *args(k + s)), guard=k.ne(last)),
                     Dep('out', MEM(place), guard=k.eq(last))]
         else:
@@ -148,8 +151,10 @@ class Gen:
         # consumers
         qhi = (cnt + 1) // 2 - 1
         cfl = [Flow('P1', 'READ', [Dep('in', TT(Bn, 'Y', k, jlo + (2 * q) * js))]),
-               Flow('Q1', 'READ', [Dep('in', TT(Bn, 'Y', k, jlo + (2 * q + 1) * js), guard=(2 * q + 1).lt(cnt),
-                                       f=(MEM(cplace) if (alt == 'mem' and not c_wb) else NULLT))])]
+               Flow('Q1', 'READ', ([Dep('in', TT(Bn, 'Y', k, jlo + (2 * q + 1) * js), guard=(2 * q + 1).lt(cnt)), Dep('in', MEM(cplace))]
+                                   if (alt == 'mem' and not c_wb and r.random() < 0.6) else
+                                   [Dep('in', TT(Bn, 'Y', k, jlo + (2 * q + 1) * js), guard=(2 * q + 1).lt(cnt),
+                                        f=(MEM(cplace) if (alt == 'mem' and not c_wb) else NULLT))]))]
         if c_wb:
             cfl.append(Flow('R', 'WRITE', [Dep('out', MEM(cplace))]))
         P.add(TaskClass(Cn, [Param('k', 'range', krng), Param('q', 'range', Rng(0, self.maybe_inline(qhi, 0.2)))], cplace, cfl, prio=self.prio('q')))
